@@ -335,6 +335,25 @@ def eval_converters(case):
                 arr = np.array(bits, dtype='uint8')
                 if bp.bsf_to_pauli(arr) != s:
                     bad('bsf_to_pauli dense 1-D', s=s)
+                # the integer dtypes the library's own converters produce (np.uint from
+                # pauli_string_to_bvector / to_bsf) and other integer widths
+                for dt in ('uint16', 'int32', 'int64', 'uint64'):
+                    wide = np.array(bits, dtype=dt)
+                    if bp.bsf_to_pauli(wide) != s or bp.bsf_to_pauli(wide.reshape(1, -1)) != [s]:
+                        bad('bsf_to_pauli depends on integer dtype', s=s, dtype=dt)
+                    if bp.bsf_wt(wide) != sum(ch != 'I' for ch in s):
+                        bad('bsf_wt depends on integer dtype', s=s, dtype=dt)
+                if bp.bsf_to_pauli(np.asarray(b)) != s:
+                    bad('bsf_to_pauli(pauli_string_to_bvector(s)) != s', s=s)
+                # sparse rows as sparse arithmetic / insert_mod2 leave them: unsorted indices
+                nzc = [t for t in range(2 * n) if bits[t]]
+                if nzc:
+                    rrev = csr_matrix((np.ones(len(nzc), dtype='uint8'), np.array(nzc[::-1]), np.array([0, len(nzc)])),
+                                      shape=(1, 2 * n))
+                    if bp.bsf_wt(rrev) != sum(ch != 'I' for ch in s):
+                        bad('bsf_wt sparse with unsorted indices', s=s)
+                    if bp.bsf_to_pauli(rrev) != [s]:
+                        bad('bsf_to_pauli sparse with unsorted indices', s=s)
                 if bp.bsf_to_pauli(arr.reshape(1, -1)) != [s]:
                     bad('bsf_to_pauli dense 2-D', s=s)
                 if bp.bsf_to_pauli(csr_matrix(arr.reshape(1, -1))) != [s]:
